@@ -54,5 +54,6 @@ package utils
 //@ trusted s2 (github.com/klauspost/compress) through io.Copy: lossless, reads src to the end, appends to dst
 //@ requires tag(src) == tagof(*bytes.Buffer) && tag(dst) == tagof(*bytes.Buffer) && unbox(*bytes.Buffer, src) != unbox(*bytes.Buffer, dst)
 //@ assigns BufC, BufStore
+//@ ensures err == nil
 //@ ensures err == nil ==> BufC == store(store(old(BufC), ref(unbox(*bytes.Buffer, src)), ""), ref(unbox(*bytes.Buffer, dst)), old(BufC)[ref(unbox(*bytes.Buffer, dst))] + s2c(old(BufC)[ref(unbox(*bytes.Buffer, src))]))
 //@ ensures forall(Int(x), (x != ref(unbox(*bytes.Buffer, src)) && x != ref(unbox(*bytes.Buffer, dst))) ==> BufStore[x] == old(BufStore)[x], trig(BufStore[x]))
